@@ -48,6 +48,11 @@ type Op struct {
 type Case struct {
 	Ops      []Op `json:"ops"`
 	Handlers bool `json:"handlers,omitempty"`
+	// Twin: a second, independent logger sits in the same modifier chain (as
+	// mobile/proxy.go wires /logs/original and /logs): 1 = behind the checked
+	// logger, 2 = in front of it. It sees the SQ / SR exchanges only, is never
+	// reset, and must not change what the checked logger holds.
+	Twin int `json:"twin,omitempty"`
 }
 
 type skippedEx struct {
@@ -182,7 +187,18 @@ func decodeHAR(body []byte) ([]*har.Entry, error) {
 func runSequential(c Case) kit.Verdict {
 	l := har.NewLogger()
 	exportH, resetH := har.NewExportHandler(l), har.NewResetHandler(l)
-	var model []mentry
+	var model, model2 []mentry
+	var l2 *har.Logger
+	if c.Twin > 0 {
+		l2 = har.NewLogger()
+	}
+	chain := []*har.Logger{l}
+	switch c.Twin {
+	case 1:
+		chain = []*har.Logger{l, l2}
+	case 2:
+		chain = []*har.Logger{l2, l}
+	}
 	reqs := map[string]*http.Request{}
 	skipped := map[int]*skippedEx{}
 	defer func() {
@@ -265,10 +281,15 @@ func runSequential(c Case) kit.Verdict {
 				old.remove()
 			}
 			skipped[op.ID] = &skippedEx{req: req, ctxID: ctx.ID(), remove: remove}
-			if err := l.ModifyRequest(req); err != nil {
-				return kit.Failf("C17/sequential/modify-request-error", "step %d: ModifyRequest = %v", step, err)
+			for _, lg := range chain {
+				if err := lg.ModifyRequest(req); err != nil {
+					return kit.Failf("C17/sequential/modify-request-error", "step %d: ModifyRequest = %v", step, err)
+				}
 			}
 			model = append(model, mentry{id: ctx.ID(), marker: marker})
+			if l2 != nil {
+				model2 = append(model2, mentry{id: ctx.ID(), marker: marker})
+			}
 		case "SR":
 			ex := skipped[op.ID]
 			if ex == nil {
@@ -276,12 +297,20 @@ func runSequential(c Case) kit.Verdict {
 			}
 			serial++
 			marker := fmt.Sprintf("r%d", serial)
-			if err := l.ModifyResponse(mkResOp(ex.req, marker, Op{Status: op.Status})); err != nil {
-				return kit.Failf("C17/sequential/modify-response-error", "step %d: ModifyResponse = %v", step, err)
+			res := mkResOp(ex.req, marker, Op{Status: op.Status})
+			for i := len(chain) - 1; i >= 0; i-- { // response modifiers run in reverse order in a stack; either order must do
+				if err := chain[i].ModifyResponse(res); err != nil {
+					return kit.Failf("C17/sequential/modify-response-error", "step %d: ModifyResponse = %v", step, err)
+				}
 			}
 			for i := range model {
 				if model[i].id == ex.ctxID {
 					model[i].resp = marker
+				}
+			}
+			for i := range model2 {
+				if model2[i].id == ex.ctxID {
+					model2[i].resp = marker
 				}
 			}
 		case "E":
@@ -343,6 +372,11 @@ func runSequential(c Case) kit.Verdict {
 		if v := compare(step, op, "Export(after-step)", l.Export().Log.Entries, model); v != nil {
 			return v
 		}
+		if l2 != nil {
+			if v := compare(step, op, "twin-logger-Export(after-step)", l2.Export().Log.Entries, model2); v != nil {
+				return v
+			}
+		}
 	}
 	return nil
 }
@@ -403,6 +437,9 @@ func classesSeq(c Case) []string {
 	if c.Handlers {
 		cl = append(cl, "through-handlers")
 	}
+	if c.Twin > 0 {
+		cl = append(cl, "twin-logger-in-the-chain")
+	}
 	flags := map[string]bool{}
 	for _, op := range c.Ops {
 		if op.Bad {
@@ -435,7 +472,7 @@ var propMachine = &kit.Prop[Case]{
 	Gen: func(t *rapid.T) Case {
 		n := rapid.IntRange(1, kit.N(40, 80)).Draw(t, "n")
 		ids := rapid.IntRange(1, 8).Draw(t, "ids")
-		c := Case{Handlers: rapid.Bool().Draw(t, "handlers")}
+		c := Case{Handlers: rapid.Bool().Draw(t, "handlers"), Twin: rapid.SampledFrom([]int{0, 0, 1, 2}).Draw(t, "twin")}
 		for i := 0; i < n; i++ {
 			k := rapid.SampledFrom([]string{"Q", "Q", "Q", "R", "R", "R", "E", "X", "X", "Z", "SQ", "SR"}).Draw(t, "kind")
 			op := Op{Kind: k}
